@@ -26,8 +26,8 @@ PLAN = {
     "C07": {"quick": ["seg13", "seg3d", "seg6s"], "thorough": ["seg13", "seg22", "seg3d", "seg13n", "seg6s"]},
     "C08": {"quick": ["seg13", "seg3d", "feat13", "feat3d"], "thorough": ["seg13", "seg22", "seg3d", "seg13n", "feat13", "feat22", "feat3d"]},
     # seg13z: tracks rebuilt from the graph, IoU enabled in bulk at that point; feat13: enable / disable at any point
-    "C09": {"quick": ["seg13", "seg3d", "seg13z", "feat13"], "thorough": ["seg13", "seg22", "seg3d", "seg13n", "seg13z", "feat13", "feat22"]},
-    "C10": {"quick": ["featns", "feat13"], "thorough": ["featns", "feat13", "feat22"]},
+    "C09": {"quick": ["seg13", "seg3d", "seg13z", "feat13", "seg5s"], "thorough": ["seg13", "seg22", "seg3d", "seg13n", "seg13z", "feat13", "feat22", "seg5s"]},
+    "C10": {"quick": ["featns", "feat13", "seg5s"], "thorough": ["featns", "feat13", "feat22", "seg5s"]},
     "C11": {"quick": ["struct3", "struct4s", "struct5s", "struct3p", "seg13", "seg6s"], "thorough": ["struct3", "struct4s", "struct5s", "struct3p", "struct3c", "struct4", "seg13", "seg22", "seg6s"]},
     "C20": {"quick": ["struct3", "struct4s", "struct5s", "seg13", "seg6s"], "thorough": ["struct3", "struct4s", "struct5s", "struct4", "seg13"]},
 }
